@@ -65,7 +65,7 @@ P = {
          "Faults are injected at the libc boundary; kernel-level partial failures (e.g. at close/fsync) are not modelled because the code under test does not call them.", "5/C19"),
 }
 FUZZ = {"C01", "C02", "C04", "C05", "C06", "C09", "C10"}
-REL_NOTE = " Every run ends with a release-profile stage: the same monitors re-run the quick workload (other seeds) against fast_qr compiled at opt-level 3 without overflow checks and debug assertions; jobs are executed in a seeded shuffled order so every worker thread sees big and small symbols interleaved."
+REL_NOTE = " Every run ends with two child stages: (1) release-profile: the same monitors re-run the quick workload (other seeds) against fast_qr compiled as users ship it (opt-level 3, no overflow checks, no debug assertions, and WITHOUT the verif_hooks feature, except for the hook-bound checks C07 and C17); (2) environment: every third job again in a process with a cleared environment refilled from a profile of commonly consulted variables, in a working directory containing decoy files. Jobs run in a seeded shuffled order; builders are configured through shuffled / repeated setter calls and used builders."
 ALL = ["C%02d" % i for i in range(1, 20)]
 
 def main():
@@ -85,7 +85,7 @@ def main():
                 "engine": "vcheck",
                 "level_claimed": {"category": cat, "text": text, "design_ref": f"DESIGN.md section {ref}"},
                 "level_note": note + REL_NOTE,
-                "technique": tech + ("; coverage-guided libFuzzer stage judged by the same oracle (thorough)" if pid in FUZZ else "") + "; release-profile stage (same monitors against fast_qr built without overflow checks / debug assertions)",
+                "technique": tech + ("; coverage-guided libFuzzer stage judged by the same oracle (thorough)" if pid in FUZZ else "") + "; release-profile child stage (fast_qr as shipped: no overflow checks, no debug assertions, hooks off) and hostile-environment child stage",
             })
         else:
             na.append({"property_id": pid, "reason": "check under construction in this session; the technique applies (see DESIGN.md section 5) and the entry moves to checks once its monitor is built and silent on the unchanged tree"})
@@ -105,7 +105,7 @@ def main():
         ],
         "checks": checks,
         "not_applicable": na,
-        "notes": "./check builds the harness twice from /repo's working tree (profiles verif and verifrel, in parallel). Exit codes: 0 held on everything observed, 1 VIOLATION, 2 INCONCLUSIVE (never on the unchanged tree). VERIF_SEED varies payloads/histories/schedules; deterministic boundary sweeps do not depend on it.",
+        "notes": "./check builds the harness twice from /repo's working tree (profile verif with the hooks; profile verifrel without them, or with them for C07/C17), in parallel. Exit codes: 0 held on everything observed, 1 VIOLATION, 2 INCONCLUSIVE (never on the unchanged tree). VERIF_SEED varies payloads/histories/schedules; deterministic boundary sweeps do not depend on it.",
     }
     with open(os.path.join(ROOT, "MANIFEST.json"), "w") as f:
         json.dump(m, f, indent=1)
